@@ -27,7 +27,7 @@ fn spec(t: Tier) -> Spec {
     Spec {
         id: "C07",
         level: "exploration",
-        rule: format!("every name of <= {} characters over {:?} (except . and ..) is created as a file (t/f/NAME), as a directory holding another such name (t/d/NAME/NEXT), and used as a starting point (as given, and for directories respelled NAME/, NAME//, NAME/., ./NAME, .//NAME/ under -P, -H and -L (printed as given, the entry below joined with exactly one more '/' unless the spelling already ends in one); the starting-point lists also go through the real pipeline; the same directory under seven spellings one after the other in one run); find_main's -print0 and -print output must be, byte for byte, the starting point as given + '/'-joined names + one delimiter per entry and nothing else (reference list built from the names, sequence under -sorted); the same tree goes through a real `find -print0 | xargs -0 vrec LOG` pipeline and the recorder's argv must be that list exactly, each path once; failing-command slice: the same pipeline with -n 3 and the recorder exiting 1, 125, 126, 127, 130, 254 on its first batches — every path is still delivered; extra slices: a path with a newline followed by >1024 bytes through real stdout (pipe and file), a listing arranged so that a multi-byte character straddles the 8192-byte buffer refill of xargs -0, and listings of 2500 entries arranged so that a NUL is exactly the last byte of a full 8192-byte buffer / the first byte of the next (pipeline and regular file); non-trivial = name containing a character other than 'a' and '.'", maxlen(t), ALPHA),
+        rule: format!("every name of <= {} characters over {:?} (except . and ..) is created as a file (t/f/NAME), as a directory holding another such name (t/d/NAME/NEXT), and used as a starting point (as given, and for directories respelled NAME/, NAME//, NAME/., ./NAME, .//NAME/ under -P, -H and -L (printed as given, the entry below joined with exactly one more '/' unless the spelling already ends in one); the starting-point lists also go through the real pipeline; the same directory under seven spellings one after the other in one run); find_main's -print0 and -print output must be, byte for byte, the starting point as given + '/'-joined names + one delimiter per entry and nothing else (reference list built from the names, sequence under -sorted); the same tree goes through a real `find -print0 | xargs -0 vrec LOG` pipeline and the recorder's argv must be that list exactly, each path once (every pipeline also runs with one of eight other spellings of the xargs side in turn: --null, -0 -i / --null --replace / -i -0 / -0 -I R / -IR --null / -0 --replace=@@ with the replace string as the command's argument, -0 -n 3); failing-command slice: the same pipeline with -n 3 and the recorder exiting 1, 125, 126, 127, 130, 254 on its first batches — every path is still delivered; extra slices: a directory holding dangling links and a link to a directory under nine spellings x -P/-H/-L x (plain, -follow, -depth); a path with a newline followed by >1024 bytes through real stdout (pipe and file), a listing arranged so that a multi-byte character straddles the 8192-byte buffer refill of xargs -0, and listings of 2500 entries arranged so that a NUL is exactly the last byte of a full 8192-byte buffer / the first byte of the next (pipeline and regular file); non-trivial = name containing a character other than 'a' and '.'", maxlen(t), ALPHA),
         bound: json!({"max_name_len": maxlen(t), "alphabet": ALPHA}),
         assumptions: vec!["names are valid UTF-8 (the statement's scope); tmpfs".into()],
         shards: 0,
@@ -123,7 +123,35 @@ fn pipeline_check_in(ctx: &mut Ctx, sbx: &Path, cwd: &Path, root_args: &[&str], 
     let _ = std::fs::remove_file(&log);
     let mut a1: Vec<&OsStr> = root_args.iter().map(OsStr::new).collect();
     a1.push(OsStr::new("-print0"));
-    let a2: Vec<&OsStr> = vec![OsStr::new("-0"), vrec.as_os_str(), log.as_os_str()];
+    // the plain form, and one of the other ways of writing the xargs side in turn (spellings of -0,
+    // replace mode in its spellings and in both orders with -0, -n 3): each delivers every path once
+    const FORMS: [(&[&str], &[&str]); 9] = [
+        (&["-0"], &[]),
+        (&["--null"], &[]),
+        (&["-0", "-i"], &["{}"]),
+        (&["--null", "--replace"], &["{}"]),
+        (&["-i", "-0"], &["{}"]),
+        (&["-0", "-I", "{}"], &["{}"]),
+        (&["-0", "-n", "3"], &[]),
+        (&["-0", "--replace=@@"], &["@@"]),
+        (&["-I{}", "--null"], &["{}"]),
+    ];
+    let turn = PIPE_TURN.with(|t| {
+        let v = t.get();
+        t.set(v + 1);
+        v
+    });
+    for mut fi in [0usize, 1 + turn % (FORMS.len() - 1)] {
+    // (replace mode starts one process per path: kept to listings of at most 300 paths)
+    if !FORMS[fi].1.is_empty() && exp.len() > 300 {
+        fi = if turn % 2 == 0 { 1 } else { 6 };
+    }
+    let (xopts, cmdargs) = FORMS[fi];
+    let _ = std::fs::remove_file(&log);
+    let mut a2: Vec<&OsStr> = xopts.iter().map(OsStr::new).collect();
+    a2.extend([vrec.as_os_str(), log.as_os_str()]);
+    a2.extend(cmdargs.iter().map(OsStr::new));
+    let what = &if fi == 0 { what.to_string() } else { format!("{what}; xargs {}", xopts.join(" ")) };
     let (f, x) = binrun::pipeline(&binrun::repo_bin("find"), &a1, &binrun::repo_bin("xargs"), &a2, cwd, &[]);
     ctx.rep.evaluations += 1;
     ctx.rep.count("pipeline_runs", 1);
@@ -137,7 +165,7 @@ fn pipeline_check_in(ctx: &mut Ctx, sbx: &Path, cwd: &Path, root_args: &[&str], 
             format!("find status {:?} stderr {:?}; xargs status {:?} stderr {:?}", f.code, show(&f.err), x.code, show(&x.err)),
             json!({"prop":"C07","kind":"pipeline","what":what}),
         );
-        return;
+        continue;
     }
     if got != want {
         let missing = want.iter().filter(|w| !got.contains(w)).count();
@@ -151,6 +179,11 @@ fn pipeline_check_in(ctx: &mut Ctx, sbx: &Path, cwd: &Path, root_args: &[&str], 
     } else {
         ctx.rep.traces_validated += 1;
     }
+    }
+}
+
+thread_local! {
+    static PIPE_TURN: std::cell::Cell<usize> = const { std::cell::Cell::new(0) };
 }
 
 fn run(ctx: &mut Ctx) {
@@ -290,7 +323,73 @@ fn run(ctx: &mut Ctx) {
     if ctx.shard == 3 % ctx.nshards {
         failing_command_slice(ctx);
     }
+    if ctx.shard == 4 % ctx.nshards {
+        dangling_under_spellings(ctx);
+    }
     crate::sandbox::clear_dir(&sbx);
+}
+
+/// A directory holding a dangling symbolic link (and a link to a directory), given under nine spellings
+/// and every follow mode: under -L the dangling link is reported through the walker's error path, and
+/// must still be printed as the starting point as given + '/' + its name.
+fn dangling_under_spellings(ctx: &mut Ctx) {
+    let sbx = ctx.sbx.clone();
+    let base = sbx.join("dl");
+    let _ = crate::sandbox::force_remove(&base);
+    std::fs::create_dir_all(base.join("d/sub")).unwrap();
+    std::fs::write(base.join("d/sub/f"), b"").unwrap();
+    std::fs::write(base.join("d/x"), b"").unwrap();
+    std::os::unix::fs::symlink("nowhere", base.join("d/gone")).unwrap();
+    std::os::unix::fs::symlink("nowhere/else", base.join("d/sub/gone2")).unwrap();
+    std::os::unix::fs::symlink("sub", base.join("d/ls")).unwrap();
+    std::env::set_current_dir(&base).unwrap();
+    for flag in ["-P", "-H", "-L"] {
+        for word in ["", "-follow", "-depth"] {
+            let mut spelled: Vec<&str> = vec![];
+            let mut want_list: Vec<String> = vec![];
+            for sp in ["d", "d/", "d//", "d/.", "d/./", "./d", ".//d", "./d//", "d/sub/../../d"] {
+                spelled.push(sp);
+                let j = |n: &str| format!("{sp}{}{n}", if sp.ends_with('/') { "" } else { "/" });
+                let follows = flag == "-L" || word == "-follow";
+                let mut one: Vec<String> = vec![sp.to_string(), j("gone"), j("ls")];
+                if follows {
+                    one.extend([j("ls/f"), j("ls/gone2")]);
+                }
+                one.extend([j("sub"), j("sub/f"), j("sub/gone2"), j("x")]);
+                if word == "-depth" {
+                    // children before their directory
+                    let mut post: Vec<String> = vec![j("gone")];
+                    if follows {
+                        post.extend([j("ls/f"), j("ls/gone2")]);
+                    }
+                    post.extend([j("ls"), j("sub/f"), j("sub/gone2"), j("sub"), j("x"), sp.to_string()]);
+                    one = post;
+                }
+                want_list.extend(one);
+            }
+            let mut args: Vec<&str> = vec![flag];
+            args.extend(spelled.iter().copied());
+            args.push("-sorted");
+            if !word.is_empty() {
+                args.push(word);
+            }
+            args.push("-print0");
+            let got = run_find(&args);
+            ctx.rep.evaluations += 1;
+            ctx.rep.nontrivial += 1;
+            ctx.rep.count("dangling_link_under_spellings_runs", 1);
+            let want = joined(&want_list, 0);
+            if got.code != Ok(0) || got.out != want {
+                ctx.rep.violation(
+                    &format!("C07 a directory holding dangling links, given under nine spellings: a path is not the starting point as given + '/'-joined names [{flag}{}{word}]", if word.is_empty() { "" } else { " " }),
+                    format!("find {:?}: status {:?}; {}; stderr {:?}", args, got.code, first_diff(&want, &got.out), String::from_utf8_lossy(&got.err)),
+                    json!({"prop":"C07","kind":"dangling"}),
+                );
+            }
+        }
+    }
+    std::env::set_current_dir(&sbx).unwrap();
+    let _ = crate::sandbox::force_remove(&base);
 }
 
 /// a directory whose name contains a newline, with > 1024 bytes of path below it: through the
